@@ -146,7 +146,7 @@ def _fd_writer(contents, output):
     transformer and program-output sources do): the file descriptor is requested (which makes a
     SpooledTextFile roll over to disk) and the bytes arrive in the file behind the descriptor."""
     fd = output.fileno()
-    ffs.handle_of_fd(fd).write(contents.as_str)
+    ffs.write_to_fd(fd, contents.as_str)
 
 
 LAYER_TEXT = {
@@ -239,7 +239,6 @@ REAL_K2 = (
     'exactly_lib.impls.types.string_source.contents.contents_with_cached_path.StringSourceContentsWithCachedPath',
     'exactly_lib.impls.types.string_source.contents.contents_with_cached_path.ContentsWithCachedPathFromWriteToBase',
     'exactly_lib.impls.types.string_source.contents.contents_with_cached_path.ContentsWithCachedPathFromAsLinesBase',
-    'exactly_lib.type_val_prims.string_source.contents.StringSourceContents',
     'exactly_lib.type_val_prims.string_source.impls.concat.string_source',
     'exactly_lib.type_val_prims.string_source.impls.concat._ConcatStringSourceContents',
     'exactly_lib.type_val_prims.string_source.impls.transformed_string_sources.TransformedStringSourceFromLines',
@@ -273,38 +272,44 @@ A_STR, A_LINES, A_WRITE, A_FILE, A_FREEZE = 'A', 'L', 'W', 'F', 'Z'
 ACCESSES = 'ALWFZ'
 
 
-def _observe(src, acc: str, text: str, lines: List[str], fd_sink=None) -> bool:
-    """Performs one access on the source and compares what it delivers with the denoted text.
-    fd_sink: a FakeDirFileSpace if write_to must be given a file with a descriptor."""
+def _access(src, acc: str, fd_sink=None):
+    """Performs one access on the source; returns what it delivered: (whole text or None, lines or None).
+    fd_sink: a DirFileSpace if write_to must be given a file that has a descriptor."""
     if acc == A_FREEZE:
         src.freeze()
-        return True
+        return None, None
     contents = src.contents()
     if acc == A_STR:
-        return contents.as_str == text
+        return contents.as_str, None
     if acc == A_LINES:
         with contents.as_lines as it:
-            got = list(it)
-        return got == lines
+            return None, list(it)
     if acc == A_WRITE:
         if fd_sink is not None:
             path = fd_sink.new_path('sink')
             with path.open('x') as sink:
                 contents.write_to(sink)
-            return ffs.utf8_decode(fd_sink.fs.raw_of(path)) == text
+            return ffs.file_bytes_as_text(path), None
         sink = ffs.PyStringIO()
         contents.write_to(sink)
-        return sink.getvalue() == text
+        return sink.getvalue(), None
     if acc == A_FILE:
         path = contents.as_file
         with path.open() as f:
             whole = f.read()
-        if not (whole == text):
-            return False
         with path.open() as f:
-            got = list(f)
-        return got == lines
+            return whole, list(f)
     raise ValueError(acc)
+
+
+def _observe(src, acc: str, text: str, lines: List[str], fd_sink=None) -> bool:
+    """Performs one access on the source and compares what it delivers with the denoted text."""
+    whole, got_lines = _access(src, acc, fd_sink)
+    if whole is not None and not (whole == text):
+        return False
+    if got_lines is not None and not (got_lines == lines):
+        return False
+    return True
 
 
 def _split_after(text: str, seps: str) -> List[str]:
@@ -339,21 +344,40 @@ def _k2_texts_ok(c, parts) -> bool:
     return True
 
 
-def _excluded_text(c, parts) -> bool:
-    """Is the argument inside a known-finding region that is switched on?"""
+def root_kinds(spec):
+    return tuple(spec[0][1:]) if isinstance(spec[0], tuple) else (spec[0],)
+
+
+def holds_str(spec) -> bool:
+    """Can the text of this source be held as a str (a str root, or a cache that may keep it in memory)?"""
+    return 'str' in root_kinds(spec) or spec_has_cache(spec)
+
+
+def in_known_region(spec, parts) -> bool:
+    """Is the text of a source inside a known-finding region that is switched on?
+
+    c14-cr                 a part that is a str literal contains CR (the str keeps it, a file made from it does not)
+    c14-splitlines         the text contains a str.splitlines-only line break and may be held as a str
+    c14-rollover-nonascii  the text contains a non-ASCII character and the source has a cache (SpooledTextFile)
+    """
+    kinds = root_kinds(spec)
     if ob.excluded(R_CR):
-        for p in parts:
-            if has_cr(p):
+        for i in range(len(kinds)):
+            if kinds[i] == 'str' and has_cr(parts[i]):
                 return True
-    if ob.excluded(R_SPLITLINES):
-        for p in parts:
-            if has_split_noncr(p):
+    if ob.excluded(R_SPLITLINES) and holds_str(spec):
+        for i in range(len(kinds)):
+            if has_split_noncr(parts[i]):
                 return True
-    if ob.excluded(R_ROLLOVER) and spec_has_cache(c['spec']):
-        for p in parts:
-            if has_nonascii(p):
+    if ob.excluded(R_ROLLOVER) and spec_has_cache(spec):
+        for i in range(len(kinds)):
+            if has_nonascii(parts[i]):
                 return True
     return False
+
+
+def _excluded_text(c, parts) -> bool:
+    return in_known_region(c['spec'], parts)
 
 
 def _pre_k2(s: str, t: str, u: str, m: int, a0: int, a1: int, a2: int) -> bool:
@@ -435,15 +459,12 @@ def _pre_k3(e: str, a: str, m: int) -> bool:
         return False
     if not in_alphabet(e, c['alphabet']) or not in_alphabet(a, c['alphabet']):
         return False
-    if ob.excluded(R_CR) and (has_cr(e) or has_cr(a)):
+    if in_known_region(c['espec'], (e,)) or in_known_region(c['aspec'], (a,)):
         return False
-    if ob.excluded(R_SPLITLINES) and (has_split_noncr(e) or has_split_noncr(a)):
+    if ob.excluded(R_CR) and root_kinds(c['espec']) == ('file',) and root_kinds(c['aspec']) == ('file',) \
+            and (has_cr(e) or has_cr(a)):
+        # c14-cr, second half: two file-backed texts are compared by their bytes
         return False
-    if ob.excluded(R_ROLLOVER):
-        if spec_has_cache(c['espec']) and has_nonascii(e):
-            return False
-        if spec_has_cache(c['aspec']) and has_nonascii(a):
-            return False
     return True
 
 
@@ -534,11 +555,7 @@ def _pre_k4(s: str, e: str, k: int, m: int) -> bool:
         return False
     if not in_alphabet(s, c['alphabet']) or not in_alphabet(e, c['alphabet']):
         return False
-    if ob.excluded(R_CR) and (has_cr(s) or has_cr(e)):
-        return False
-    if ob.excluded(R_SPLITLINES) and (has_split_noncr(s) or has_split_noncr(e)):
-        return False
-    if ob.excluded(R_ROLLOVER) and spec_has_cache(c['spec']) and has_nonascii(s):
+    if in_known_region(c['spec'], (s,) * n_parts(c['spec'])) or in_known_region(('str',), (e,)):
         return False
     return True
 
@@ -561,7 +578,7 @@ def k4_wrappers(s: str, e: str, k: int, m: int) -> bool:
         text_w = K4_WRAPPERS[w]
         text_w = text_w % ((base,) * text_w.count('%s'))
         n += 1
-        model, text = build_source(c['spec'], fs, tfs, (s,), m, 'm%d-' % n)
+        model, text = build_source(c['spec'], fs, tfs, (s,) * n_parts(c['spec']), m, 'm%d-' % n)
         if c['matcher'] == 'is-empty':
             want = text == ''
         elif c['matcher'] == 'num-lines':
@@ -657,12 +674,13 @@ def _k3_ob(espec, aspec, apre, maxlen, alphabet, timeout, **extra) -> Ob:
 def _k4_ob(matcher, spec, wrappers, maxlen, alphabet, timeout, tag='', **extra) -> Ob:
     case = dict(matcher=matcher, spec=spec, wrappers=tuple(wrappers), maxlen=maxlen, alphabet=alphabet)
     case.update(extra)
+    model_name = _spec_name(spec) + (' (every part = the text)' if n_parts(spec) > 1 else '')
     return Ob(
         name='K4:%s:%s%s' % (matcher, _spec_name(spec), tag), fn='k4_wrappers', case=case, kernel='K4',
         bound='matcher `%s` written as %s, parsed by the real parser, on model %s: every text of <= %d characters '
               'over %s%s; every memory buffer size m >= 1' % (
                   K4_MATCHERS[matcher], ' / '.join('`%s`' % K4_WRAPPERS[w].replace('%s', 'M') for w in wrappers),
-                  _spec_name(spec), maxlen, _alpha_name(alphabet),
+                  model_name, maxlen, _alpha_name(alphabet),
                   {'num-lines': ', every K0 in Z', 'equals': ', every expected text E of the same bound',
                    'is-empty': ''}[matcher]),
         timeout=timeout, real=REAL_K4,
@@ -701,6 +719,8 @@ def obligations(tier: str) -> List[Ob]:
         if thorough or spec == K2_CONCAT2_SPECS[0]:
             obs.append(_k2_ob(spec, SEQ_UNFROZEN_THEN_FROZEN, 4 if thorough else 3, ALPHA_PLAIN,
                               2400 if thorough else 300, tag=':plain'))
+    # three parts: the pending-partial-line logic of concat between a middle part and the last one
+    obs.append(_k2_ob(K2_CONCAT3_SPECS[0], 'LAW', 3, ALPHA_PLAIN, 400, tag=':plain'))
     # FF: a character at which only str.splitlines divides
     obs.append(_k2_ob(('str',), SEQ_FROZEN_FIRST, 3, ALPHA_FF, 300, tag=':FF'))
     obs.append(_k2_ob(('file', 'filter'), SEQ_FROZEN_FIRST, 3, ALPHA_FF, 300, tag=':FF'))
@@ -765,12 +785,156 @@ def obligations(tier: str) -> List[Ob]:
     return obs
 
 
-def selftest(tier) -> int:
-    from vsym import scratch
-    d = scratch.new_dir('c14st')
+class _RealDirFileSpace:
+    """Real paths with counter names (self-test only)."""
+
+    def __init__(self, root):
+        import pathlib
+        self._root = pathlib.Path(root)
+        self._n = 0
+        self.fs = None
+
+    def new_path(self, name_suffix=None):
+        self._n += 1
+        return self._root / ('%04d-%s' % (self._n, name_suffix if name_suffix else 'f'))
+
+    def sub_dir_space(self, name_suffix=None):
+        return self
+
+
+class _RealFs:
+    def __init__(self, root):
+        import pathlib
+        self._root = pathlib.Path(root)
+
+    def create(self, name: str, text: str):
+        p = self._root / name.replace('/', '_')
+        p.write_bytes(text.encode('utf-8'))
+        return p
+
+
+def _scenario(spec, seq, parts, m, real_dir=None):
+    """Runs an access sequence concretely; with real_dir on REAL files with the REAL io / os /
+    filecmp, otherwise on the stand-ins.  Returns the list of everything delivered."""
+    if real_dir is None:
+        fs = ffs.FakeFs()
+        tfs = ffs.FakeDirFileSpace(fs)
+        ffs.install(fs)
+    else:
+        ffs.uninstall()
+        fs = _RealFs(real_dir)
+        tfs = _RealDirFileSpace(real_dir)
+    out = []
     try:
-        n = ffs.selftest(d)
+        src, _ = build_source(spec, fs, tfs, parts, m)
+        fd_sink = tfs if spec_needs_fd(spec) else None
+        for acc in seq:
+            out.append(_access(src, acc, fd_sink))
+    except Exception as e:  # noqa
+        out.append(type(e).__name__)
+    return out
+
+
+def _equals_scenario(espec, aspec, apre, e, a, m, real_dir=None):
+    if real_dir is None:
+        fs = ffs.FakeFs()
+        tfs = ffs.FakeDirFileSpace(fs)
+        ffs.install(fs)
+    else:
+        ffs.uninstall()
+        fs = _RealFs(real_dir)
+        tfs = _RealDirFileSpace(real_dir)
+    try:
+        expected, _ = build_source(espec, fs, tfs, (e,), m, 'e-')
+        actual, _ = build_source(aspec, fs, tfs, (a,), m, 'a-')
+        for acc in apre:
+            _access(actual, acc)
+        matcher = _equals_matcher(expected)
+        return [matcher.matches_w_trace(actual).value, matcher.matches_w_trace(actual).value]
+    except Exception as ex:  # noqa
+        return [type(ex).__name__]
+
+
+def selftest(tier) -> int:
+    """(1) every stand-in against the real thing (real temporary files, io.StringIO, filecmp);
+    (2) the REAL exactly_lib classes on REAL files against the same classes on the stand-ins: every
+        access sequence / source / text / buffer size of a concrete sample must deliver the same values
+        (including the texts inside the known-finding regions, where both must go wrong identically);
+    (3) the reference line division against iterating a real file."""
+    import itertools
+    import os
+    from vsym import scratch
+    thorough = tier == 'thorough'
+    d = scratch.new_dir('c14st')
+    n = 0
+    try:
+        n += ffs.selftest(d)
+        texts = ['', 'a', 'a\n', 'a\nb', 'é\na\n', 'é\né', 'a\r\nb', '\r', 'a\x0cb\n', '\n\n', 'ab\nc\n\nd']
+        specs = [('str',), ('file',), ('file', 'identity'), ('str', 'filter'), ('file', 'writer'), ('str', 'seq'),
+                 ('str', 'writer', 'filter'), ('str', 'fdwriter'), ('file', 'fdwriter')]
+        seqs = [SEQ_ROOT, SEQ_UNFROZEN_THEN_FROZEN, SEQ_FROZEN_FIRST, 'FZW', 'ZFL'] if thorough else [SEQ_UNFROZEN_THEN_FROZEN, SEQ_FROZEN_FIRST]
+        ms = (1, 2, 3, 5, 100) if thorough else (1, 3, 100)
+        k = 0
+        for spec in specs:
+            for seq in seqs:
+                for t in texts:
+                    for m in ms:
+                        k += 1
+                        rd = os.path.join(d, 'r%d' % k)
+                        os.mkdir(rd)
+                        real = _scenario(spec, seq, (t, '', ''), m, rd)
+                        fake = _scenario(spec, seq, (t, '', ''), m)
+                        if real != fake:
+                            raise AssertionError('real files and stand-ins differ: %r %r %r m=%r\nreal: %r\nfake: %r' % (
+                                spec, seq, t, m, real, fake))
+                        n += 1
+                        scratch.remove(rd)
+        parts_list = [('a', 'b\n'), ('a\n', 'b'), ('', 'a'), ('a', ''), ('é\n', 'a\né'), ('a\x0cb', 'c'), ('a\r', '\nb')]
+        for spec in [(('concat', 'str', 'str'),), (('concat', 'str', 'file'),), (('concat', 'file', 'str'), 'filter')]:
+            for seq in (SEQ_UNFROZEN_THEN_FROZEN, SEQ_FROZEN_FIRST):
+                for parts in parts_list:
+                    for m in ((1, 2, 4, 100) if thorough else (1, 2, 100)):
+                        k += 1
+                        rd = os.path.join(d, 'r%d' % k)
+                        os.mkdir(rd)
+                        real = _scenario(spec, seq, parts + ('',), m, rd)
+                        fake = _scenario(spec, seq, parts + ('',), m)
+                        if real != fake:
+                            raise AssertionError('real files and stand-ins differ: %r %r %r m=%r\nreal: %r\nfake: %r' % (
+                                spec, seq, parts, m, real, fake))
+                        n += 1
+                        scratch.remove(rd)
+        eq_texts = ['', 'a', 'a\n', 'a\r\n', 'é', 'a\nb']
+        kinds = [(('str',), ''), (('file',), ''), (('str', 'writer'), ''), (('str', 'writer'), 'Z'), (('file', 'filter'), 'ZL')]
+        if not thorough:
+            kinds = kinds[:2] + kinds[3:4]
+        for (espec, _), (aspec, apre) in itertools.product(kinds, kinds):
+            for e in eq_texts:
+                for a in eq_texts:
+                    for m in ((1, 3, 100) if thorough else (1, 100)):
+                        k += 1
+                        rd = os.path.join(d, 'r%d' % k)
+                        os.mkdir(rd)
+                        real = _equals_scenario(espec, aspec, apre, e, a, m, rd)
+                        fake = _equals_scenario(espec, aspec, apre, e, a, m)
+                        if real != fake:
+                            raise AssertionError('equals: real files and stand-ins differ: %r %r %r %r %r m=%r: %r vs %r' % (
+                                espec, aspec, apre, e, a, m, real, fake))
+                        n += 1
+                        scratch.remove(rd)
+        # reference line division against a real file (texts without CR: files translate those)
+        for t in texts + ['\x0b\x1c\x1d\x1e\x85\u2028\u2029x\ny']:
+            if '\r' in t:
+                continue
+            p = os.path.join(d, 'lines.txt')
+            with open(p, 'w', encoding='utf-8') as f:
+                f.write(t)
+            with open(p, encoding='utf-8') as f:
+                if list(f) != ref_lines(t):
+                    raise AssertionError('reference line division differs from file iteration on %r' % t)
+            n += 1
     finally:
+        ffs.uninstall()
         scratch.remove(d)
     return n
 
